@@ -26,7 +26,8 @@ UNITS_S = ['m', 'p', 'c', 'bd', 'lg', 'trf', '@kf', 'anim', 'animic', 'cnt', '10
 SIGMA_C = ['a', '{', '}', ':', ';', '"', "'", '\\', '(', ')', '/', '*', ' ', '\n', '@', '-', ',']
 SIGMA_H = ['<', '>', '/', 'a', 'b', ' ', '=', '"', "'", '!', '-', '[', ']', '?', '{', '}', '\\']
 UNITS_H = ['<a', '</a>', '<a>', '<br>', '/>', '>', '<', ' b="', " c='", ' d={', '"', "'", '}', ' e', '=', 'x',
-           '<script>', '</script>', '<style>', '<!--', '-->', '<![CDATA[', ']]>', '<?', '?>', ' ', '/']
+           '<script>', '</script>', '<style>', '<!--', '-->', '<![CDATA[', ']]>', '<?', '?>', ' ', '/',
+           '<script type=']            # the attribute the scanner itself reads (special elements are typed)
 
 # math
 TOKENS_E = ['1', '2', '0', '.5', '1.5', '+', '-', '*', '/', '\\', '(', ')', ' ', '()', '(1)', '(2+1)']
